@@ -382,6 +382,10 @@ func pathRandString(r *Rand, lo, hi int) string {
 			sb.WriteString("/")
 		case x < 5:
 			sb.WriteString(pathTokens[1+r.Intn(4)])
+		case x == 5 && r.Bool():
+			// sampled only (not part of the enumerated alphabet): escapes with lower-case hex digits, of ASCII and
+			// of multi-byte text, the upper-case spelling of the same bytes, an escaped unreserved letter
+			sb.WriteString(r.Pick(pathTokensX))
 		default:
 			sb.WriteString(pathTokens[r.Intn(len(pathTokens))])
 		}
@@ -389,11 +393,34 @@ func pathRandString(r *Rand, lo, hi int) string {
 	return sb.String()
 }
 
+var pathTokensX = []string{"%2f", "%e9", "%c3%a9", "%C3%A9", "%41", "%e4%bd%a0"}
+
+// pathFlipEscapes changes the case of the hex digits of every %xx escape (lower <-> upper).
+func pathFlipEscapes(p string) string {
+	b := []byte(p)
+	for i := 0; i+2 < len(b); i++ {
+		if b[i] != '%' {
+			continue
+		}
+		for _, j := range []int{i + 1, i + 2} {
+			switch {
+			case b[j] >= 'a' && b[j] <= 'f':
+				b[j] -= 32
+			case b[j] >= 'A' && b[j] <= 'F':
+				b[j] += 32
+			}
+		}
+	}
+	return string(b)
+}
+
 // pathMutate returns a request spelling derived from a registered path: decorations that the property says
 // are insignificant, decorations that are significant, or an unrelated string.
 func pathMutate(r *Rand, p string) string {
 	ws := func() string { return pathTokens[1+r.Intn(4)] }
-	switch r.Intn(12) {
+	switch r.Intn(13) {
+	case 12:
+		return pathFlipEscapes(p)
 	case 0:
 		return p
 	case 1:
